@@ -12,10 +12,12 @@ Definition c04_mix (S : SOps) (sq eg : nat -> lmx S -> lmx S) (n : nat)
            (comps : list (lmx S * lmx S)) (ws : list (T S)) : mixture (c04_O S sq eg) n n :=
   @mkMix (c04_O S sq eg) n n (mkLayout n 0 false 0) comps ws.
 
-(* UKFPrediction::predict.  generic = false: additive constructor, A = F (n x n), Q (n x n);
-   generic = true: A = [F B] (n x (n+q)) applied to the augmented sigma points, Q = Qw (q x q) *)
+(* UKFPrediction::predict.  generic = false: additive constructor, A = F (n x n), Q (n x n),
+   exo = Some c: a constant exogenous input attached to the linear state model (propagate is
+   x -> F x + c); generic = true: A = [F B] (n x (n+q)) applied to the augmented sigma points,
+   Q = Qw (q x q) *)
 Definition c04_predict (S : SOps) (sq eg : nat -> lmx S -> lmx S) (n q : nat) (generic : bool)
-           (alpha beta kappa : T S) (skip_pred skip_state : bool) (A Q : lmx S)
+           (alpha beta kappa : T S) (skip_pred skip_state : bool) (A Q : lmx S) (exo : option (lmx S))
            (comps : list (lmx S * lmx S)) (ws : list (T S))
   : list (lmx S * lmx S) * list (T S) :=
   let O := c04_O S sq eg in
@@ -26,7 +28,10 @@ Definition c04_predict (S : SOps) (sq eg : nat -> lmx S -> lmx S) (n q : nat) (g
                            (@linear_cols O (n + q) n A) Q (c04_mix S sq eg n comps ws)
     else
       @ukf_predict_additive O n Lst alpha beta kappa skip_pred skip_state
-                            (@linear_cols O n n A) Q n (c04_mix S sq eg n comps ws) in
+                            (match exo with
+                             | Some c => @affine_cols O n n A c
+                             | None => @linear_cols O n n A
+                             end) Q n (c04_mix S sq eg n comps ws) in
   (mx_comps r, mx_weights r).
 
 (* UKFCorrection::correct + getLikelihood.  generic = false: additive constructor, A = H (m x n),
@@ -36,12 +41,12 @@ Definition c04_predict (S : SOps) (sq eg : nat -> lmx S -> lmx S) (n q : nat) (g
    an earlier step are present when the step under test starts). *)
 Definition c04_correct (S : SOps) (sq eg : nat -> lmx S -> lmx S) (n q m : nat) (generic : bool)
            (alpha beta kappa : T S) (skip : bool) (A R : lmx S) (y : option (lmx S)) (fail : bool)
-           (warm : option (lmx S))
+           (warm : option (lmx S)) (mnoise : nat)
            (comps : list (lmx S * lmx S)) (ws : list (T S))
            (old_comps : list (lmx S * lmx S)) (old_ws : list (T S))
   : (list (lmx S * lmx S) * list (T S)) * option (list (T S)) :=
   let O := c04_O S sq eg in
-  let Lm := mkLayout m 0 false 0 in
+  let Lm := mkLayout m 0 false mnoise in     (* getMeasurementDescription(): m linear, mnoise noise components *)
   let pred := c04_mix S sq eg n comps ws in
   let old := c04_mix S sq eg n old_comps old_ws in
   let step (sk : bool) (yy : option (lmx S)) (fl : bool) (st : ukf_state O m) :=
@@ -67,10 +72,11 @@ Definition c04_congr (S : SOps) (r q : nat) (B Q : lmx S) : lmx S :=
   let O := c04_O S (fun _ A => A) (fun _ A => A) in
   @mmul O r q r (@mmul O r q q B Q) (@mtr O r q B).
 
-Definition c04_kf_predict (S : SOps) (n : nat) (F Q : lmx S) (comps : list (lmx S * lmx S))
+Definition c04_kf_predict (S : SOps) (n : nat) (F Q : lmx S) (exo : option (lmx S)) (comps : list (lmx S * lmx S))
   : list (lmx S * lmx S) :=
   let O := c04_O S (fun _ A => A) (fun _ A => A) in
-  map (@kf_predict_comp O n F Q) comps.
+  map (fun xP => let r := @kf_predict_comp O n F Q xP in
+                 (match exo with Some c => @madd O n 1 (fst r) c | None => fst r end, snd r)) comps.
 
 Definition c04_kf_correct (S : SOps) (n m : nat) (H R y : lmx S) (comps : list (lmx S * lmx S))
   : list (lmx S * lmx S * T S) :=
